@@ -931,6 +931,16 @@ func (e *specEnv) call(n *ast.CallExpr) Val {
 					imp(le(bv, e.t.top(e.old)), eq(sel(cur, bv), sel(old, bv))), cur, bv))
 			}
 			return Val{tBool, []string{and(fs...)}}
+		case "preservedghost":
+			// preservedghost("name"): the ghost field heap GF.name is as in the pre-state, for every key
+			bl, ok := n.Args[0].(*ast.BasicLit)
+			if !ok {
+				e.errorf("preservedghost: string literal expected")
+				return Val{tBool, []string{"true"}}
+			}
+			hn := "GF." + strings.Trim(bl.Value, "\"")
+			e.t.eng.heapSort[hn] = "(Array Int Int)"
+			return Val{tBool, []string{eq(e.t.heapGet(e.cur, hn, "(Array Int Int)"), e.t.heapGet(e.old, hn, "(Array Int Int)"))}}
 		case "preservedobjs":
 			// preservedobjs(T): every object of struct type T that existed in the pre-state has all its fields unchanged
 			T := e.typeExpr(n.Args[0])
